@@ -329,6 +329,29 @@ func (e *Engine) registerIntrinsics() {
 	in["(time.Time).IsZero"] = func(e *Engine, fn *ssa.Function, a []Value) Value {
 		return term.Bool(a[0].(TimeV).Zero)
 	}
+	// Unix() and Nanosecond() of time.Unix(0, n): floor division and modulus by 10^9
+	floorDivMod := func(n *term.Term) (*term.Term, *term.Term) {
+		g := term.Const(64, 1000000000)
+		q, r := term.Bin(term.OpBvSdiv, n, g), term.Bin(term.OpBvSrem, n, g)
+		neg := term.Cmp(term.OpSlt, r, term.Const(64, 0))
+		return term.Ite(neg, term.Bin(term.OpBvSub, q, term.Const(64, 1)), q), term.Ite(neg, term.Bin(term.OpBvAdd, r, g), r)
+	}
+	in["(time.Time).Unix"] = func(e *Engine, fn *ssa.Function, a []Value) Value {
+		t := a[0].(TimeV)
+		if t.Zero {
+			return term.Const(64, uint64(0xfffffff1886e0900)) // -62135596800: seconds of year 1
+		}
+		q, _ := floorDivMod(t.NS)
+		return q
+	}
+	in["(time.Time).Nanosecond"] = func(e *Engine, fn *ssa.Function, a []Value) Value {
+		t := a[0].(TimeV)
+		if t.Zero {
+			return term.Const(64, 0)
+		}
+		_, r := floorDivMod(t.NS)
+		return r
+	}
 	in["(time.Time).UnixNano"] = func(e *Engine, fn *ssa.Function, a []Value) Value {
 		t := a[0].(TimeV)
 		if t.Zero {
